@@ -14,7 +14,7 @@
 From Coq Require Import List ZArith Lia Bool Arith.
 Import ListNotations.
 Require Import C01.Sums C01.Batch C01.Tensor C01.OpExpr C01.Model C01.Covered.
-Require Import C01.ProofsBase C01.ProofsAlg C01.ProofsKron C01.ProofsStruct C01.ProofsMore C01.ProofsSize C01.ProofsMain C01.ProofsTr.
+Require Import C01.ProofsBase C01.ProofsAlg C01.ProofsKron C01.ProofsStruct C01.ProofsMore C01.ProofsPerm C01.ProofsRepeat C01.ProofsMul C01.ProofsSize C01.ProofsMain C01.ProofsTr.
 Open Scope Z_scope.
 
 (* MAIN THEOREM (partial: restricted to [covered]).  For every operator expression of ANY nesting depth built
@@ -114,6 +114,33 @@ Theorem C01_kron_diag_correct : forall ds, forallb (fun d => pos (nr d)) ds = tr
   kronl (map ddiag ds) == ddiag (kron_diag_vec ds).
 Proof. exact kronl_ddiag. Qed.
 
+(* BatchRepeat (square case): split every batch index I = R * base + S, move the repeat part R into extra columns
+   (column' = col * numel + flat R), multiply ONCE with the base, move back = multiply with the tiled tensor;
+   any rank, any base batch shape, any repeat counts, any broadcasting right-hand side *)
+Theorem C01_batch_repeat_roundtrip : forall g B rep,
+  acts g B -> forallb pos (bsh B) = true -> (length (bsh B) <= length rep)%nat ->
+  acts (fun X => let Bout := bcast (brep (bsh B) rep) (bsh X) in
+                 let pbs := bpad_to (bsh B) Bout in
+                 let rp := bquot Bout pbs in
+                 brep_back pbs rp Bout (nc X) (fr (g (fr (brep_to_cols pbs rp (nc X) (dexpand Bout X))))))
+       (drepeat B rep).
+Proof. exact acts_batchrepeat_square. Qed.
+
+(* Mul (root form): (L L^T o R) X = rowsum_a ( L[:,a] o (R (X o L[:,a])) ), any rank of the root, sizes, batches *)
+Theorem C01_mul_root_formula : forall L R g, acts g R -> bsh L = bsh R -> nr L = nr R -> nr R = nc R ->
+  acts (mul_mm L g (bsh R)) (dhad (dmm L (dtr L)) R).
+Proof. exact acts_mul. Qed.
+
+(* permutation operators: gather with perm is P X; gather with the sorted-index inverse is P^T X (pigeonhole: an injective
+   map of 0..n-1 into itself is onto), all n, all batch shapes *)
+Theorem C01_permutation_correct : forall p, perm_okb p = true ->
+  acts (perm_mm p) (dperm p) /\ acts (perm_mm (inv_perm p)) (dtr (dperm p)) /\
+  perm_okb (inv_perm p) = true /\ dperm (inv_perm p) == dtr (dperm p).
+Proof.
+  intros p HP. split; [apply acts_perm; exact HP|]. split; [apply acts_perm_inv; exact HP|].
+  split; [apply inv_perm_ok; exact HP|apply dperm_inv; exact HP].
+Qed.
+
 (* the library's batch-shape rule (torch.broadcast_shapes as used by _matmul_broadcast_shape) is torch's
    documented rule: align at the right, sizes equal or 1, result takes the non-1 size; for ALL shapes *)
 Theorem C01_broadcast_shapes : forall a b r, torch_broadcast_shapes a b = Some r <-> torch_rule a b r.
@@ -143,7 +170,9 @@ Example C01_nonvacuous :
                 Masked (Cat [Dense (of_table [] 5 2 [[[1;2];[3;4];[5;6];[7;8];[9;0]]]); Dense (of_table [] 5 3 [[[1;0;0];[0;1;0];[0;0;1];[1;1;1];[2;2;2]]])] CatCols)
                        [true; true; false; true; true] [true; false; true; true; true];
                 Interpolated (TransposePermutation 2) (of_table [] 4 1 [[[0];[2];[2];[3]]]) (of_table [] 4 1 [[[1];[2];[1];[1]]])
-                             (of_table [] 4 2 [[[0;1];[1;1];[3;0];[2;2]]]) (of_table [] 4 2 [[[1;1];[1;2];[1;1];[1;1]]])] in
+                             (of_table [] 4 2 [[[0;1];[1;1];[3;0];[2;2]]]) (of_table [] 4 2 [[[1;1];[1;2];[1;1];[1;1]]]);
+                BatchRepeat (Mul (Root (Dense (of_table [] 4 2 [[[1;0];[0;1];[1;1];[2;1]]]))) (Root (Dense (of_table [] 4 1 [[[1];[2];[3];[4]]])))) [2%nat];
+                Permutation (of_table [] 4 1 [[[2];[0];[3];[1]]])] in
   let X := of_table [2%nat; 3%nat] 4 1 [[[1];[0];[0];[0]]; [[0];[1];[0];[0]]; [[1];[1];[0];[0]]; [[0];[0];[1];[0]]; [[0];[0];[0];[1]]; [[1];[1];[1];[1]]] in
   wf e /\ covered e /\ okrhs (denote e) X.
 Proof. vm_compute. repeat split. Qed.
